@@ -7,7 +7,7 @@ import pipe
 
 ID = "C04"
 MODULE = "C04"
-IMPORTS = "Bytes RustInt Range CacheControl Cache CacheProofs Cache04Proofs Fixture CacheX CacheXProofs CacheControlProofs CacheXWitness"
+IMPORTS = "Bytes RustInt Range CacheControl Cache CacheProofs Cache04Proofs Fixture CacheX CacheXProofs CacheControlProofs CacheXWitness Hosts CacheClear CacheClearProofs"
 PROFILES = ("dev",)
 PER_SHARD = 3          # scenarios contain real sleeps: spread them over all cores
 KERNEL_SAMPLE = 30
@@ -20,6 +20,9 @@ THEOREMS = [(n, _PINS[n]) for n in (
     "lifetime_equation", "lifetime_max_age_among", "lifetime_kvarn_unit",
     "cleared_is_miss", "cleared_page_is_recomputed", "cleared_all_is_miss", "not_found_is_recomputed", "unsafe_or_non_get_is_recomputed",
     "computed_once_history", "not_modified_rule", "not_modified_arithmetic",
+    "fixture_collection_is_built", "clear_page_designation_exact", "clear_all_filter_exact", "cleared_page_by_designation_is_recomputed",
+    "clear_reports_what_it_cleared", "cleared_host_by_filter_is_recomputed", "clear_by_other_name_is_noop", "clear_all_by_other_filter_is_noop",
+    "designated_history_erases", "computed_once_designated_history", "designated_run_meets_spec", "designated_own_name_is_plain",
     "vary_push_admission_refuted", "variant_lifetime_refuted", "clear_unprimed_refuted", "ims_unstored_variant_refuted")]
 RULE = ("kvarn::handle_cache in process (component pipex.run, harness/src/c04x.rs) with handlers whose body carries their invocation number, "
         "against the Coq cache model Model/CacheX.v (correspondence) and against expectations derived from the property text (oracle: "
@@ -265,6 +268,109 @@ def clears(rng):
     return out
 
 
+# ---- (C') the clears as their caller names the host (component pipex.rund, Model/CacheClear.v) ---------------------
+def dcase(c, ops, kind, expect):
+    """model = pipex.rund; the specification component pipex.rund_spec (the two lookups read from the doc comments of
+    src/host.rs) is evaluated on the same input: a difference is reported with this input as the replay"""
+    return Case("pipex.rund", pipe.scenario(c, ops), "pipex.rund_spec", {"kind": kind, "expect": expect})
+
+
+def designates(own, dflt, name):
+    """clear_page's doc: "If host is "" or "default", the default host is used"; otherwise the host of that name"""
+    return dflt if name in (b"", b"default") else name == own
+
+
+def filter_reaches(own, flt):
+    return flt is None or flt == own
+
+
+def ref_history(own, dflt, ops):
+    """reference reading of a history over the two counting handlers /c (Full: one item per path) and /d (QueryMatters: one
+    item per path?query): which requests must be computed, what each clear must answer"""
+    stored = set()
+    exp = []
+    for o in ops:
+        if o[0] == "req":
+            _, path, query = o
+            # Full: the item of the path; QueryMatters: the item of path + query (no query = the empty query, NOT the path's item)
+            key = ("P", path) if path == b"/c" else ("PQ", path, query or b"")
+            if key in stored:
+                exp.append(("hit", 200, 0))
+            else:
+                exp.append(("compute", 200, 0))
+                stored.add(key)
+        elif o[0] == "page":
+            _, name, path, query = o
+            if designates(own, dflt, name):
+                keys = {("PQ", path, query or b""), ("P", path)}      # the uri as given and without its query
+                exp.append(("clear", True, bool(stored & keys)))
+                stored -= keys
+            else:
+                exp.append(("clear", False, False))
+        else:
+            if filter_reaches(own, o[1]):
+                stored.clear()
+            exp.append(None)
+    return exp
+
+
+def d_ops(ops):
+    out = []
+    for o in ops:
+        if o[0] == "req":
+            out.append(pipe.req(o[1] + (b"?" + o[2] if o[2] is not None else b"")))
+        elif o[0] == "page":
+            out.append(pipe.clear_page(o[2] + (b"?" + o[3] if o[3] is not None else b""), host=o[1]))
+        else:
+            out.append(pipe.clear_all(o[1], designated=True))
+    return out
+
+
+def designated_clears(rng, tier):
+    out = []
+    h = pipe.H(b"/c", kind=2, body=b"n=", spref=2, cpref=0)
+    h2 = pipe.H(b"/d", kind=2, body=b"m=", spref=1, cpref=0)
+    for own in (b"localhost", b"a.test", b"default"):
+        for dflt in (False, True):
+            kw = {} if own == b"localhost" else {"host": own}
+            if dflt:
+                kw["default_host"] = True
+            c = base_cfg([h, h2], **kw)
+            names = [own, b"", b"default", b"other.test", own.upper(), own + b"."]
+            for name in names:
+                ops = [("req", b"/c", None), ("req", b"/c", None), ("page", name, b"/c", None), ("req", b"/c", None),
+                       ("req", b"/d", b"x=1"), ("page", name, b"/d", b"x=1"), ("req", b"/d", b"x=1"), ("page", name, b"/c", b"q"), ("req", b"/c", None)]
+                out.append(dcase(c, d_ops(ops), "clear/by-name" + ("/default-host" if dflt else ""), ref_history(own, dflt, ops)))
+            for flt in (None, own, b"other.test", b"", b"default", own.upper()):
+                ops = [("req", b"/c", None), ("req", b"/c", None), ("req", b"/d", b"x=1"), ("all", flt), ("req", b"/c", None), ("req", b"/d", b"x=1")]
+                out.append(dcase(c, d_ops(ops), "clear/filter" + ("/default-host" if dflt else ""), ref_history(own, dflt, ops)))
+            # the host has no response cache: nothing is ever stored; the default branch then reports "not found"
+            ops = [("req", b"/c", None), ("page", own, b"/c", None), ("page", b"default", b"/c", None), ("all", own), ("req", b"/c", None)]
+            out.append(dcase(pipe.cfg(cache=False, handlers=[h, h2], report=[xb(r) for r in REPORT], **kw), d_ops(ops), "clear/no-cache",
+                             [("compute", 200, 0), None, None, None, ("compute", 200, 0)]))
+    # random histories of requests and designated clears
+    n = 40 if tier == "quick" else 1500
+    for _ in range(n):
+        own = rng.choice([b"localhost", b"localhost", b"a.test", b"default", b"b.test"])
+        dflt = rng.random() < 0.5
+        kw = {} if own == b"localhost" else {"host": own}
+        if dflt:
+            kw["default_host"] = True
+        names = [own, own, b"", b"default", b"other.test", b"localhost", b"a.test"]
+        ops = []
+        for _ in range(rng.randrange(4, 14)):
+            r = rng.random()
+            path, query = rng.choice([(b"/c", None), (b"/c", None), (b"/c", b"x=1"), (b"/d", None), (b"/d", b"x=1"), (b"/d", b"x=2")])
+            if r < 0.6:
+                ops.append(("req", path, query))
+            elif r < 0.85:
+                ops.append(("page", rng.choice(names), path, query))
+            else:
+                ops.append(("all", rng.choice([None] + names)))
+        out.append(dcase(base_cfg([h, h2], **kw), d_ops(ops), "clear/designated-history", ref_history(own, dflt, ops)))
+    return out
+
+
 # ---- (D) If-Modified-Since ---------------------------------------------------------------------------------
 def ims(rng):
     out = []
@@ -437,7 +543,7 @@ def generate(rng, tier):
         cases.append(admission(rng, 2, b"GET", 200, 10, cc))
     for name in SECOND:
         cases.append(vary_admission(rng, name))
-    cases += vary_lifetime(rng) + lifetimes(rng) + clears(rng) + ims(rng)
+    cases += vary_lifetime(rng) + lifetimes(rng) + clears(rng) + designated_clears(rng, tier) + ims(rng)
     # every status of the list once with a cacheable preference, streams once per kind, the size boundary
     for st in sorted(set(STATUSES)):
         cases.append(admission(rng, rng.choice([1, 2, 3]), b"GET", st, 10, "none"))
@@ -501,6 +607,13 @@ def extra_oracle(c, impl):
     if len(out) != len(exp):
         return "wrong number of results"
     for i, (e, o) in enumerate(zip(exp, out)):
+        if e is not None and e[0] == "clear":
+            if o[0] != "L" or len(o[1]) != 2:
+                return "op %d: not the answer of a clear" % i
+            got = (bool(o[1][0][1]), bool(o[1][1][1]))
+            if got != (e[1], e[2]):
+                return "op %d: clear_page answered (found, cleared) = %s, the designation and the history demand %s" % (i, got, (e[1], e[2]))
+            continue
         if e is None or o[0] != "L" or len(o[1]) != 7:
             continue
         want, status, stream = e
@@ -518,7 +631,7 @@ def extra_oracle(c, impl):
 
 
 def signature(c, m):
-    if c.comp != "pipex.run":
+    if c.comp not in ("pipex.run", "pipex.rund"):
         return None
     try:
         for x in xparse(m)[1]:
@@ -531,7 +644,7 @@ def signature(c, m):
 
 def describe(c):
     import kv
-    if c.comp != "pipex.run":
+    if c.comp not in ("pipex.run", "pipex.rund"):
         return {"component": c.comp, "kind": c.meta.get("kind"), "input": kv.pretty(c.x, 200)}
     ops = c.x[1][1][1]
     return {"component": c.comp, "kind": c.meta.get("kind"), "config": kv.pretty(c.x[1][0], 400),
